@@ -2,10 +2,11 @@
 """Whole-tree behaviour-preserving transforms, to measure how brittle the checkers are.
 
   reformat : every module re-emitted with ast.unparse (comments gone, quotes/parentheses/line breaks normalised)
+  restyle  : keyword arguments reversed, comparisons mirrored (a < b -> b > a), `if not c: A else: B` swapped
   rename   : in every function, local variables (assigned names that are not parameters, not global/nonlocal,
              not used by nested functions/comprehension leak) get the suffix `_r`
 
-usage: benign.py <reformat|rename> [PROP ...]   -> runs the checks on the transformed scratch copy
+usage: benign.py <reformat|rename|restyle> [PROP ...]   -> runs the checks on the transformed scratch copy
 """
 import ast
 import builtins
@@ -69,8 +70,36 @@ def rename_function(fn):
     return len(mapping)
 
 
+class Restyle(ast.NodeTransformer):
+    """Behaviour-preserving restyling: keyword arguments in reverse order; `a < b` as `b > a` (and the like);
+    `not a == b` as `a != b`; `x = x + y` kept; `if not c: A else: B` as `if c: B else: A`."""
+
+    FLIP = {ast.Lt: ast.Gt, ast.Gt: ast.Lt, ast.LtE: ast.GtE, ast.GtE: ast.LtE}
+
+    def visit_Call(self, node):
+        self.generic_visit(node)
+        kws = node.keywords
+        if len(kws) >= 2 and all(k.arg is not None for k in kws):
+            node.keywords = list(reversed(kws))
+        return node
+
+    def visit_Compare(self, node):
+        self.generic_visit(node)
+        if len(node.ops) == 1 and type(node.ops[0]) in self.FLIP and not any(isinstance(x, (ast.Call, ast.Await, ast.NamedExpr)) for x in ast.walk(node)):
+            return ast.Compare(left=node.comparators[0], ops=[self.FLIP[type(node.ops[0])]()], comparators=[node.left])
+        return node
+
+    def visit_If(self, node):
+        self.generic_visit(node)
+        if node.orelse and isinstance(node.test, ast.UnaryOp) and isinstance(node.test.op, ast.Not) and not (len(node.orelse) == 1 and isinstance(node.orelse[0], ast.If)):
+            return ast.If(test=node.test.operand, body=node.orelse, orelse=node.body)
+        return node
+
+
 def transform(src: str, mode: str) -> str:
     tree = ast.parse(src)
+    if mode == "restyle":
+        tree = ast.fix_missing_locations(Restyle().visit(tree))
     if mode == "rename":
         for n in ast.walk(tree):
             if isinstance(n, (ast.FunctionDef, ast.AsyncFunctionDef)):
